@@ -100,6 +100,45 @@ def compare (op : CmpOp) (x n : Nat) : Bool :=
   | .ge => decide (x ≥ n)
   | .le => decide (x ≤ n)
 
+/-! ### `room_member_count`: the `is` string
+
+"A decimal integer optionally prefixed by one of `==`, `<`, `>`, `>=` or `<=`. A prefix of `<`
+matches rooms where the member count is strictly less than the given number and so forth. If no
+prefix is present, this parameter defaults to `==`." Integers are Matrix integers (≤ 2^53 − 1). -/
+
+def isDigit (c : Char) : Bool := decide ('0' ≤ c) && decide (c ≤ '9')
+
+/-- The number a digit string denotes. -/
+def decimalValue (ds : Text) : Nat := ds.foldl (fun a c => a * 10 + (c.toNat - 48)) 0
+
+def maxInteger : Nat := 9007199254740991
+
+/-- The spellings of the comparison. -/
+def opSpellings : List (Text × CmpOp) :=
+  [("==".toList, .eq), ("<".toList, .lt), (">".toList, .gt), (">=".toList, .ge), ("<=".toList, .le),
+   ([], .eq)]
+
+/-- `s` is a well-formed `is`: `prefix ++ digits` denoting the comparison `op` with `n`. -/
+def MemberCountDenotes (s : Text) (op : CmpOp) (n : Nat) : Prop :=
+  ∃ sp ∈ opSpellings, ∃ ds, s = sp.1 ++ ds ∧ sp.2 = op ∧ ds ≠ [] ∧ ds.all isDigit = true ∧
+    decimalValue ds = n ∧ n ≤ maxInteger
+
+/-- The condition with `is = s` holds in a room of `x` members. -/
+def MemberCountHolds (s : Text) (x : Nat) : Prop :=
+  ∃ op n, MemberCountDenotes s op n ∧ compare op x n = true
+
+/-- The spelling `sp` reads `s` as a comparison with this number. -/
+def readAs (s : Text) (sp : Text × CmpOp) : Option (CmpOp × Nat) :=
+  let ds := s.drop sp.1.length
+  if sp.1.isPrefixOf s && !ds.isEmpty && ds.all isDigit && decide (decimalValue ds ≤ maxInteger) then
+    some (sp.2, decimalValue ds)
+  else none
+
+/-- Decision procedure for `MemberCountHolds` (`memberCountDecide_iff_Holds`); `none` = `s` is not a
+well-formed `is` (the condition is then an unknown condition, which matches nothing). -/
+def memberCountDecide (s : Text) (x : Nat) : Option Bool :=
+  (opSpellings.findSome? (readAs s)).map fun r => compare r.1 x r.2
+
 /-- The power level of a user: the entry of `users`, else `users_default`. -/
 def levelOf (pl : PowerLevelsCtx) (u : Text) : Int :=
   match pl.users.find? (·.1 = u) with
